@@ -1534,7 +1534,7 @@ func (cs *ClientSession) callProgressNotificationHandler(ctx context.Context, pa
 
 func (c *Client) callElicitationCompleteHandler(ctx context.Context, req *ElicitationCompleteNotificationRequest) (Result, error) {
 	// Check if there's a pending elicitation waiting for this notification.
-	if cs, ok := req.GetSession().(*ClientSession); ok {
+	if cs, ok := req.GetSession().(*ClientSession); ok && req.Params != nil {
 		cs.pendingElicitationsMu.Lock()
 		if ch, exists := cs.pendingElicitations[req.Params.ElicitationID]; exists {
 			select {
